@@ -34,7 +34,7 @@ def record_trace(plain, args, work):
         m = re.match(r'\d+\s+write\((\d+), "((?:\\x[0-9a-f]{2})*)"(?:\.\.\.)?, (\d+)\)\s+= (-?\d+)', line)
         if m and int(m.group(1)) in fds:
             f = fds[int(m.group(1))]; data = decode(m.group(2))
-            if f == 'log': events.append(('call',) * 1 + (data.count(b'CALL'),))
+            if f == 'log': events.append(('call', data.count(b'CALL'), [l.split(b' ', 1)[1].decode() for l in data.split(b'\n') if l.startswith(b'CALL ')]))
             else: events.append(('write', f, data))
             continue
         m = re.match(r'\d+\s+close\((\d+)\)', line)
@@ -54,7 +54,7 @@ class TraceModel:
         # versions: every O_TRUNC open of a file starts a new version; full content = bytes written until its close
         self.ver = {'ck': [0] * (N + 1), 'old': [0] * (N + 1)}; self.len = {'ck': [0] * (N + 1), 'old': [0] * (N + 1)}
         self.full = {'ck': [b''], 'old': [b'']}; self.closed_at = {'ck': [None], 'old': [None]}; self.opened_calls = {'ck': [0], 'old': [0]}
-        cur = {'ck': 0, 'old': 0}; ln = {'ck': 0, 'old': 0}; writable = {'ck': False, 'old': False}; calls = 0
+        cur = {'ck': 0, 'old': 0}; ln = {'ck': 0, 'old': 0}; writable = {'ck': False, 'old': False}; calls = 0; self.call_points = []
         self.calls_at = [0] * (N + 1)
         for i, e in enumerate(events):
             if e[0] == 'open' and e[2]:
@@ -65,7 +65,7 @@ class TraceModel:
             elif e[0] == 'close':
                 f = e[1]
                 if self.closed_at[f][cur[f]] is None and writable[f]: self.closed_at[f][cur[f]] = i; writable[f] = False
-            elif e[0] == 'call': calls += e[1]
+            elif e[0] == 'call': calls += e[1]; self.call_points += e[2]
             for f in ('ck', 'old'): self.ver[f][i + 1] = cur[f]; self.len[f][i + 1] = ln[f]
             self.calls_at[i + 1] = calls
         # logical checkpoints: the persisted states S_k = content of the last version of ck closed before the next model call (non-empty)
@@ -133,6 +133,9 @@ def materialise(tm, p, l, plain, args, work):
         rc, out, err = 'timeout', '', ''
     m = re.search(r'RESULT status=(\d+) loaded=(\d+) calls=(\d+) err=(\S+)', out)
     res = {'rc': rc, 'dir': d}
+    try: res['recomputed'] = [l.split(' ', 1)[1].strip() for l in open(os.path.join(d, 'calls.log')) if l.startswith('CALL ')]
+    except OSError: res['recomputed'] = []
+    a = max(avail_of(tm, 'ck', (p, l)), avail_of(tm, 'old', (p, l))); res['image_used'] = a; res['held_by_image'] = tm.call_points[:tm.B_calls[a]] if a >= 0 else []
     if m: res.update(status=int(m.group(1)), loaded=int(m.group(2)), calls=int(m.group(3)), err=float(m.group(4)))
     else: res['stderr'] = err[-600:]
     return res
@@ -155,6 +158,8 @@ def judge(tm, p, l, res, budget):
         if res['status'] != 0: problems.append('the restarted call raises an exception')
         if res['err'] > 1e-9: problems.append('the final surrogate does not reproduce the model at its loaded points (err %.2e)' % res['err'])
         if res['loaded'] > budget: problems.append('more points loaded (%d) than the budget %d' % (res['loaded'], budget))
+        again = sorted(set(res.get('recomputed', [])) & set(res.get('held_by_image', [])))
+        if again: problems.append('a sample held by the recovered checkpoint image %d is computed again after recovery (%s)' % (res.get('image_used', -1), again[0]))
         if res['calls'] > budget - saved: problems.append('re-computes %d samples although checkpoint %d with %d samples had completed before the crash (at most %d allowed)' % (res['calls'], K, saved, budget - saved))
     return problems
 
@@ -223,9 +228,9 @@ def avail_of(tm, f, cex):
 
 def run(tier, seed, only=None):
     t0 = time.time()
-    cfgs = [('lp-localp-d2-b6-batch1', spec('localp', 'localp', 2, 1, 1, order=1), 6, 1), ('sq-rleja-d2-b5-batch2', spec('sequence', 'rleja', 2, 1, 1), 5, 2)]
+    cfgs = [('lp-localp-d2-b6-batch1', spec('localp', 'localp', 2, 1, 1, order=1), 6, 1), ('sq-rleja-d2-b5-batch2', spec('sequence', 'rleja', 2, 1, 1), 5, 2), ('gl-cc-d2-b7-batch1', spec('global', 'clenshaw-curtis', 2, 1, 1), 7, 1)]
     if tier != 'quick':
-        cfgs += [('gl-cc-d2-b6-batch1', spec('global', 'clenshaw-curtis', 2, 1, 1), 6, 1), ('lp-semilocalp-d2-b6-batch2', spec('localp', 'semi-localp', 2, 1, 1, order=2), 6, 2), ('fr-fourier-d1-b5-batch1', spec('fourier', 'fourier', 1, 1, 1), 5, 1),
+        cfgs += [('gl-cc-d2-b6-batch1', spec('global', 'clenshaw-curtis', 2, 1, 1), 6, 1), ('gl-rlejadouble2-d2-b9-batch2', spec('global', 'rleja-double2', 2, 1, 2), 9, 2), ('gl-leja-d2-b6-batch1', spec('global', 'leja', 2, 1, 2), 6, 1), ('lp-semilocalp-d2-b6-batch2', spec('localp', 'semi-localp', 2, 1, 1, order=2), 6, 2), ('fr-fourier-d1-b5-batch1', spec('fourier', 'fourier', 1, 1, 1), 5, 1),
                  ('lp-localp-d1-b4-batch1', spec('localp', 'localp', 1, 2, 1, order=1), 4, 1)]
     if only: cfgs = [c for c in cfgs if re.search(only, c[0])]
     try:
